@@ -17,7 +17,7 @@ import vlib
 QUICK_MC = ["MC_Krill_q_chain.cfg", "MC_Krill_q_roll.cfg",
             "MC_Krill_q_life.cfg"]
 THOROUGH_MC = ["MC_Krill_chain.cfg", "MC_Krill_roll.cfg",
-               "MC_Krill_life.cfg"]
+               "MC_Krill_life.cfg", "MC_Krill_q_aspa.cfg"]
 
 # which invariant / step property belongs to which property id
 OWNER = {
@@ -180,10 +180,11 @@ def generate(chk, themes, num, depth, seed):
                             "margin": MARGIN_HOURS * 3600},
                            {"a": "Settle"}])
             if theme == "agg":
-                # route origins are aggregated per origin AS from two
-                # authorisations on and split again below two
-                b["agg"] = 2
-                b["deagg"] = 2
+                # route origins are aggregated per origin AS as soon as a CA
+                # has more than one authorisation (so that one update can
+                # remove an authorisation and cross the threshold)
+                b["agg"] = 1
+                b["deagg"] = 1
             b["actions"] = acts
             b["theme"] = theme
             add_timing(b)
